@@ -1502,8 +1502,13 @@ impl<'a> Exec<'a> {
                             if g0 == g {
                                 let eq = api(L::msg_eq, || *r_cc == Some(msg))?;
                                 let want = api(L::cc14_accessors, || c14_img(&msg))?;
+                                // not only `==` (which a change could weaken): field by field, through the accessors
+                                let got = match r_cc.as_ref() {
+                                    Some(x) => Some(api(L::cc14_accessors, || c14_img(x))?),
+                                    None => None,
+                                };
                                 self.p.rt_c07_checked += 1;
-                                self.sink.check(R::C07_roundtrip, first_none && eq, || format!("encoded {:?}: scanner returned something for the first part: {}, second part returned {:?}", want, !first_none, r_cc));
+                                self.sink.check(R::C07_roundtrip, first_none && eq && got == Some(want), || format!("encoded {:?}: scanner returned something for the first part: {}, second part returned {:?}", want, !first_none, r_cc));
                             }
                         } else {
                             self.p.rt_c07_skipped += 1;
